@@ -161,7 +161,7 @@ def gen_cases(rng, tier):
                 continue
             seq2 = mutate_inside(rng, seq, a, b)
             rh = rng.random() < 0.9
-            cases.append(("local", desc, role, seq, (a, b, 0), rh, seq2))
+            cases.append(("local", desc, role, seq, (a, b, rng.choice([0, 0, 0, 1, -1])), rh, seq2))
     return cases, {}
 
 
